@@ -7,7 +7,8 @@
    representation; [inv] is the representation invariant (spelled out by C16_inv_meaning). *)
 From Coq Require Import List Arith ZArith.
 From Coq Require Import Sorting.Permutation Sorting.Sorted.
-From Muscle Require Import Cont.QueueModel Cont.QueueInv Cont.QueueSort Cont.QueueProofs Cont.QueueConst Cont.QueueTwo.
+From Muscle Require Import Cont.QueueModel Cont.QueueInv Cont.QueueRotateCS Cont.QueueSortCS Cont.QueueSort Cont.QueueProofs Cont.QueueConst
+  Cont.QueueTwo.
 Import ListNotations.
 
 (* what the invariant says, slot by slot *)
@@ -102,7 +103,7 @@ Theorem C16_junk_independent : forall (ow : bool) (sq : nat) (jk1 jk2 : Z) (ops 
 Proof. exact junk_independent. Qed.
 Print Assumptions C16_junk_independent.
 
-(* what the ideal Sort(from, to) -- which C16_step_refines shows the representation-level Sort to equal --
+(* what the ideal Sort(from, to) -- which C16_step_refines and C16_sort_code_shaped show the Queue's Sort to equal --
    guarantees: a permutation; outside the range nothing moves; inside, sorted by the key (the item itself, or
    x/4 for the key-only comparison) with equal-key items in their original order (stability) *)
 Theorem C16_sort_perm : forall (bk : bool) (l : list Z) (f t : nat), Permutation (l0_sort bk l f t) l.
@@ -118,6 +119,27 @@ Theorem C16_sort_range : forall (bk : bool) (l : list Z) (f t : nat),
               filter (fun y => Z.eqb (sort_key bk y) v) (firstn (t' - f) (skipn f l)).
 Proof. exact l0_sort_range. Qed.
 Print Assumptions C16_sort_range.
+
+(* the code-shaped in-place merge sort of the model (bubble sort below 12 items, Merge with Lower/Upper cuts, rotation by
+   gcd cycles; [sort_cs], which the representation-level Sort of C16_step_refines runs) computes that ideal stable sort *)
+Theorem C16_sort_code_shaped : forall (bk : bool) (l : list Z) (f t : nat),
+  sort_cs (sort_key bk) l f t = l0_sort bk l f t.
+Proof. exact sort_cs_is_l0_sort. Qed.
+Print Assumptions C16_sort_code_shaped.
+
+(* the rotation by gcd cycles inside Merge: the middle runs X and Y change places, nothing else moves *)
+Theorem C16_rotate_by_cycles : forall (P X Y S : list Z) (fc pv sc : nat),
+  fc = length P -> pv = fc + length X -> sc = pv + length Y ->
+  rotate_cs (P ++ X ++ Y ++ S) fc pv sc = P ++ Y ++ X ++ S.
+Proof. exact rotate_cs_ok. Qed.
+Print Assumptions C16_rotate_by_cycles.
+
+(* Normalize's rotation of the whole array by _headIndex (Paul Hsieh's cycle algorithm, counted until every slot has
+   moved) brings slot _headIndex to the front and keeps the cyclic order *)
+Theorem C16_normalize_rotation : forall (a : list Z) (hd : nat),
+  0 < hd < length a -> hsieh_rotate a hd = skipn hd a ++ firstn hd a.
+Proof. exact hsieh_rotate_ok. Qed.
+Print Assumptions C16_normalize_rotation.
 
 (* ---- two queues: SwapContents, Plunder (move), operator=, ==, StartsWith/EndsWith, the Queue-argument
    forms of AddTailMulti/AddHeadMulti/InsertItemsAt, also with a Queue passed as its own argument *)
